@@ -114,6 +114,21 @@ Theorem C08_refines_array_compiled : forall nl h h' (s : cmap) A,
 Proof. exact comp_refines_array. Qed.
 Print Assumptions C08_refines_array_compiled.
 
+(* the emitted C executes inserts in place; that is the per-cycle step because every lookup
+   is emitted before every insert (checked on the generated text of every design, and on
+   the emitter's source by the translator) -- and it would NOT be otherwise *)
+Theorem C08_c_program : forall nl prog (h : cmap), lookups_first prog = true ->
+  c_prog_step nl h prog = comp_mem_step nl h (c_prog_writes prog, c_prog_reads prog).
+Proof. exact c_prog_step_spec. Qed.
+Print Assumptions C08_c_program.
+
+Theorem C08_c_program_order_matters :
+  exists prog, lookups_first prog = false
+    /\ fst (c_prog_step 1 (c_init 1 c_size []) prog)
+       <> fst (comp_mem_step 1 (c_init 1 c_size []) (c_prog_writes prog, c_prog_reads prog)).
+Proof. exact c_prog_order_matters. Qed.
+Print Assumptions C08_c_program_order_matters.
+
 (* initialize_mems (one insert per memory_value_map item) builds the initial array *)
 Theorem C08_compiled_init : forall nl size init, (0 < size)%nat -> c_init_ok nl init ->
   forall a, c_oka a -> c_lookup nl (c_init nl size init) a = arr_init init 0 a.
@@ -259,6 +274,11 @@ Theorem C08_rom_ok_is_datum : forall aw bw pad data a v, 0 <= bw ->
   /\ (rom_data_at data a = Some v \/ (rom_data_at data a = None /\ pad = true /\ v = 0)).
 Proof. exact rom_read_ok. Qed.
 Print Assumptions C08_rom_ok_is_datum.
+
+Theorem C08_rom_mask_identity : forall aw bw pad data a v, 0 <= bw ->
+  rom_read aw bw pad data a = RomOk v -> sanitize v bw = v.
+Proof. exact rom_mask_identity. Qed.
+Print Assumptions C08_rom_mask_identity.
 
 (* CompiledSimulation / Verilog tabulate the ROM when the artefact is built *)
 Theorem C08_rom_table : forall aw bw pad data tbl a, 0 <= aw ->
